@@ -177,6 +177,10 @@ Error BaseAssembler::embed_data_array(TypeId type_id, const void* data, size_t i
     return report_error(make_error(Error::kOutOfMemory));
   }
 
+  if (total_size == 0) {
+    return Error::kOk;
+  }
+
   CodeWriter writer(this);
   ASMJIT_PROPAGATE(writer.ensure_space(this, total_size));
 
